@@ -28,7 +28,9 @@ ALLOWED_AXIOMS = set()      # nothing: every property theorem must be closed und
 
 TRUSTED_BASE = [
     'Coq 8.16.1 kernel (coqc), including the vm_compute bytecode VM used to run the model; native_compute not used',
-    'no axioms: every property theorem prints "Closed under the global context" (captured on each run)',
+    'no axioms declared; every property theorem prints "Closed under the global context" (captured on each run), except the '
+    '*_src_* theorems of the broker properties (C01-C04, C08-C10, C14, C15, C19), which rely on the standard library axiom '
+    'FunctionalExtensionality.functional_extensionality_dep and on nothing else (checked on each run)',
     'hand-written Gallina model of the anchored Python code (coq/*.v); agreement with /repo is tested by the '
     'correspondence check on generated inputs, not proved',
     'harness/genparams.py (reads wire constants from /repo into coq/Params.v on every run)',
